@@ -34,6 +34,9 @@ type simProp struct {
 	Draw func(rt *rapid.T, sim *core.Sim, g *core.Gen) []core.Op
 	// Once runs before the generated cases (enumerated parts), in shard 0 only.
 	Once func(t *testing.T, st *core.Stats)
+	// NoListener: never install a listener (default: where the configuration leaves it open, half of
+	// the cases run with a recorder).
+	NoListener bool
 }
 
 // tracker keeps per-case facts used for labels and the non-triviality rules.
@@ -133,6 +136,13 @@ func runSimProp(t *testing.T, p *simProp) {
 			cfg := p.Cfg
 			if p.CaseCfg != nil {
 				cfg = p.CaseCfg(rt, cfg, u)
+			} else if cfg.Listener == "" && !p.NoListener {
+				// every structural path has a branch for "a listener is installed": where the check does
+				// not care about events, half of the cases run with a recorder subscribed to everything
+				if rapid.Bool().Draw(rt, "withListener") {
+					cfg.Listener = "full"
+					cs.Label("world listener installed")
+				}
 			}
 			sim := core.NewSim(rt, cfg, u, st, cs)
 			g := &core.Gen{M: sim.M, Mix: p.Mix, Lim: p.Lim}
@@ -145,6 +155,7 @@ func runSimProp(t *testing.T, p *simProp) {
 				}
 				if len(u.Rel) > 0 && rapid.IntRange(0, wideOdds).Draw(rt, "wide") == 0 {
 					g.Wide = true
+					g.BigBatch = true // batch creations of up to 140 entities (beyond one default capacity increment)
 					g.Lim.MaxAlive, g.Lim.MaxTotal = 140, 400
 					cs.Label("wide case")
 				}
@@ -212,7 +223,11 @@ func replaySim(t *testing.T, path string, p *simProp, st *core.Stats) {
 		p.Replay(t, &r, st)
 		return
 	}
-	sim := core.NewSim(t, p.Cfg, r.Universe, st, nil)
+	cfg := p.Cfg
+	if cfg.Listener == "" {
+		cfg.Listener = r.Listener
+	}
+	sim := core.NewSim(t, cfg, r.Universe, st, nil)
 	for _, op := range r.Ops {
 		sim.Apply(op)
 		if sim.Done() {
